@@ -205,6 +205,14 @@ def _block_data(spec, sector, shape):
             return x
         return rng.normal(size=shape)
 
+    if dist == "nan":
+        dist = "normal"
+        x = np.asarray(draw(), dtype="float64").reshape(shape)
+        if x.size:
+            x.flat[0] = np.nan
+        if "complex" in dtype:
+            x = x + 1j * np.asarray(draw(), dtype="float64").reshape(shape)
+        return np.array(x.astype(dtype), order="C", copy=True).reshape(shape)
     x = np.asarray(draw(), dtype="float64").reshape(shape)
     if "complex" in dtype:
         x = x + 1j * np.asarray(draw(), dtype="float64").reshape(shape)
